@@ -308,4 +308,24 @@ def bounded(pb, interp, rng, tier):
             fail("time_at", "inverts-prediction.array-of-phases", "3 times in one entry", f"{type(e).__name__}: {str(e)[:80]}")
     except Exception as e:
         fail("from_polyco", "two-entry.raises", "two entries", f"{type(e).__name__}: {str(e)[:100]}")
+    # "for every tempo-style polyco file": the widest spans and fastest rotators the format can carry.  One entry,
+    # NSPAN = 9999 min (a week; the widest the whitespace-separated header can carry), F0 = 716.358 Hz: 60*DT*F0 reaches 2e8 cycles, where one double resolves 3e-8
+    ent = {"tmid": "56500.50000000000", "rphase": "1193219.345678", "f0": "716.358000000000", "span": 9999,
+           "coeffs": ["1.25000000000000000e-03", "-3.10000000000000000D-05", "2.00000000000000000e-11"]}
+    try:
+        p = pb.PhasePredictor.from_polyco(io.StringIO(make_polyco([ent])))
+        tm = Time(ent["tmid"], format="mjd", precision=9)
+        worst, at = Fraction(0), None
+        for i in range(41):
+            fr_ = -0.49 + 0.98 * i / 40
+            t = tm + fr_ * ent["span"] * u.min
+            ev += 1
+            err = abs(exact_phase(p(t)) - tempo_phase(ent, time_minus_mjd_minutes(t, ent["tmid"])))
+            if err > worst:
+                worst, at = err, fr_
+        distinct.add("long-span")
+        if worst > Fraction(1, 10 ** 8):
+            fail("__call__", "long-span.precision", f"NSPAN=9999 min, F0=716.358 Hz, t = TMID {at:+.4f} span", f"error {float(worst):.2e} cycles (> 1e-8)")
+    except Exception as ex_:
+        fail("__call__", "long-span.raises", "NSPAN=9999 min, F0=716.358 Hz", f"{type(ex_).__name__}: {ex_}")
     return {"evaluations": ev, "distinct_nontrivial": max(2, len(distinct)), "failures": fails, "samples": samples}
